@@ -65,7 +65,7 @@ theorem recoverable_delivers (c : Codec) (rc : RxCfg) (o : ObjCfg)
     (hgen : ∀ s, Ev.pkt s ∈ pre ++ Ev.fdt true :: post → Genuine o s)
     (hpre : ∀ s, Ev.pkt s ∈ pre → s.close = false)
     (hatt : (∃ s, Ev.pkt s ∈ pre) ∨
-      ∃ fs rest, post = fs ++ rest ∧ (∀ e, e ∈ fs → ∃ l, e = Ev.fdt l) ∧ fs.length < 10 ∧
+      ∃ fs rest, post = fs ++ rest ∧ (∀ e, e ∈ fs → ∃ l, e = Ev.fdt l) ∧ KeepsAge 0 fs ∧
         ∃ s rest', rest = Ev.pkt s :: rest')
     (hclose : CloseOK c o (pktSyms pre).reverse post)
     (hend : AllDec c o (pktSyms (pre ++ Ev.fdt true :: post))) :
@@ -152,7 +152,7 @@ example : 1 ≤ (runObj (codecOf .rs).canDecode wRc (wObj true) {} ([] ++ Ev.fdt
     · exact ⟨2, by decide, by decide⟩
   · intro s hs; simp at hs
   · right
-    exact ⟨[], _, rfl, by simp, by simp, _, _, rfl⟩
+    exact ⟨[], _, rfl, by simp, Or.inl (by simp), _, _, rfl⟩
   · refine ⟨by simp, ?_, trivial⟩
     intro _ b hb
     have : b = 0 := by simp [wObj] at hb; omega
